@@ -232,7 +232,13 @@ class StubOcr:
 
     def process_page(self, image, page_layout):
         _, kinds = decode_cfg(PAR["cfgid"], PAR["pages"], PAR["nlines"], PAR["nk"])
-        fresh = make_page(page_layout.id, kinds, PAR["nlines"], len(PAR["pages"]) * PAR["nlines"])
+        # the OCR result is a function of the IMAGE the tool handed in (every page image has its own grey value,
+        # pf_common.grey_of): a page id paired with another page's image gets that page's lines, as a real OCR would
+        pid = page_layout.id
+        if image is not None:
+            from .pf_common import grey_of
+            pid = {grey_of(p): p for p in PAR["pages"]}.get(int(image[0, 0, 0]), pid)
+        fresh = make_page(pid, kinds, PAR["nlines"], len(PAR["pages"]) * PAR["nlines"])
         page_layout.regions = fresh.regions
         return page_layout
 
